@@ -236,6 +236,28 @@ def run(ctx):
         cases.append(f"({n}%nat, {cnl(lens)}, {lit})")
         ctx.case_seen(["enum", n, lens], True)
     ctx.sample({"fn": "permutations_with_cycle_lenghts", "n": enum_inputs[10][0], "cycle_lengths": enum_inputs[10][1]})
+    # the user of the enumeration (PermutationGroups.conjugacy_classes): a class asked for with None is listed whole, with a COUNT k it contributes exactly k
+    # sampled members - zero included - so the generator list is the concatenation of what was asked for
+    from cayleypy import PermutationGroups
+    import math as _math
+    from collections import Counter as _Counter
+
+    def class_size(n, lens):
+        ct = list(lens) + [1] * (n - sum(lens))
+        size = _math.factorial(n)
+        for k_, m_ in _Counter(ct).items():
+            size //= (k_ ** m_) * _math.factorial(m_)
+        return size
+    for n, classes in ((4, {(2, 2): None, (3,): 0}), (5, {(2,): 0, (3,): None}), (5, {(2, 2): 0}), (4, {(2,): None, (3,): 2, (4,): 0}), (6, {(3, 3): 0, (2,): None})):
+        want = sum(class_size(n, c) if k is None else k for c, k in classes.items())
+        try:
+            got = len(PermutationGroups.conjugacy_classes(n, dict(classes)).generators_permutations)
+        except Exception as ex:  # pylint: disable=broad-except
+            got = -1 if want == 0 else type(ex).__name__           # a definition needs at least one generator: refusing an empty list is fine
+        ctx.count("conjugacy_classes_with_counts")
+        if got != want and not (want == 0 and got == -1):
+            ctx.violation("property_fails", f"conjugacy_classes({n}, {classes}) lists {got} generators; whole classes and the requested counts add up to {want}",
+                          {"fn": "conjugacy_classes", "n": n, "classes": [[list(c), k] for c, k in classes.items()]}, True)
     bad = ctx.coq_failing("Base Perm", "", "nat * list nat * result (list (list nat))", cases,
                           "fun c => match c with (n, lens, r) => result_eqb nat_list2_eqb (perms_with_cycle_lengths n lens) r end", "enum", shard=40)
     for i in bad[:3]:
